@@ -77,7 +77,7 @@ var lifoModel = porcupine.Model{
 			if len(s) == 0 {
 				return o.Val == 0, s
 			}
-			return o.Val == s[len(s)-1], s[:len(s)-1:len(s)-1]
+			return o.Val == s[len(s)-1], s[: len(s)-1 : len(s)-1]
 		}
 		return false, s
 	},
